@@ -11,6 +11,9 @@ Proof. vm_compute. reflexivity. Qed.
 Lemma table_ok_true : table_ok metadata_fields = true.
 Proof. vm_compute. reflexivity. Qed.
 
+Lemma source_facts_true : marshal_shape_ok && time_standard && table_ok metadata_fields = true.
+Proof. vm_compute. reflexivity. Qed.
+
 (* ---------- induction principle for the nested value type ---------- *)
 Section ValueInd.
   Variable P : value -> Prop.
